@@ -431,7 +431,7 @@ def transparency(chk, c, rule):
                 chk.ob(rule, '%s [%s] translates delimiter roles only' % (gt.cls.qualname, label), not lits,
                        'the literal character(s) %s are rewritten although they are not delimiters of the set in use: parse -> encode '
                        'changes such text' % lits, gt.loc, key='%s|%s|%s' % (rule, gt.cls.qualname, ','.join(lits)))
-    chk.floor('translation tables examined', n, 3)
+    chk.floor('translation tables examined', n, 2)
 
 
 def run(chk):
@@ -445,6 +445,8 @@ def run(chk):
     chk.rule('C06-P3', 'idempotence: escaping an output again changes nothing')
     chk.rule('C06-P4', 'letter agreement: both guard classes contain every letter the function emits, E, and the highlight letters H N')
     chk.rule('C06-P5', 'transparency: only delimiter roles of the set in use are translated; any other character is emitted as it is')
+    chk.rule('C06-V', 'textual leaves are built from the class table of their own version, never from a directly imported generic class')
+    version_classes(chk, c, 'C06-V')
     chk.rule('C06-D', 'SubComponent.to_er7 hands its encoding characters to the datatype object')
     chk.assume('delimiters are pairwise distinct characters and none of them is an escape letter or the escape character '
                '(the property\'s own "valid set of distinct punctuation delimiters")')
@@ -631,3 +633,34 @@ def run(chk):
 def _is_factor(f, w):
     n, k = len(w), len(f)
     return k < n and any(w[i:i + k] == f for i in range(n - k + 1))
+
+
+def version_classes(chk, c, rule):
+    """Textual leaves must be built from the class table of their own version (get_base_datatypes / the factories map): the
+    escape table and the guard letters differ between versions (2.7+ escape the truncation character and know \\L\\).  Rule: the
+    modules that create leaf values never instantiate a textual datatype class imported directly from hl7apy.base_datatypes."""
+    ix = c.index
+    base = ix.cls('base_datatypes.TextualDataType')
+    textual = {ci.name for ci in ix.subclasses(base) if ci.module.name == 'base_datatypes'}
+    n = 0
+    for mn in ('core', 'parser', 'factories', 'validation', 'utils'):
+        mod = ix.module(mn)
+        direct = {local for local, (dotted, orig) in mod.imports.items()
+                  if dotted in ('hl7apy.base_datatypes', 'base_datatypes') and (orig or local) in textual}
+        for fq, fi in sorted(mod.functions.items()) + [(f.qualname, f) for k in mod.classes.values() for f in k.methods.values()]:
+            for x in own_nodes(fi.node):
+                if isinstance(x, ast.Call):
+                    n += 1
+                    if isinstance(x.func, ast.Name) and x.func.id in direct:
+                        chk.fail(rule, '%s: `%s`' % (fi.qualname, norm(x)[:50]),
+                                 'the generic %s class is instantiated directly: for versions whose table binds another class '
+                                 '(2.7+: truncation escaping, \\L\\) the leaf is escaped with the wrong rules' % x.func.id,
+                                 '%s:%d' % (mod.relpath, x.lineno), key='%s|%s|%s' % (rule, fi.qualname, x.func.id))
+    # positive control: the matcher recognises the pattern on a synthetic module
+    probe = ast.parse("from hl7apy.base_datatypes import ST\ndef f(v):\n    return ST(v)")
+    hit = any(isinstance(x, ast.Call) and isinstance(x.func, ast.Name) and x.func.id == 'ST' for x in ast.walk(probe))
+    if not hit or 'ST' not in textual:
+        raise AnalysisError('positive control of the direct-instantiation matcher failed')
+    chk.ok(rule, 'calls examined in the leaf-creating modules: %d' % n, '', key='%s|scan' % rule)
+    chk.floor('calls examined for direct textual-class instantiation', n, 300)
+
